@@ -491,7 +491,7 @@ func ruleHeaderAndCoverage(r *Run, p string, k *serKind, doHeader, doCover bool)
 	site := w.Pos(k.RDecl.Pos()) + " (*" + k.Name + ").ReadFrom"
 	for i := 0; i < st.NumFields(); i++ {
 		f := st.Field(i).Name()
-		ft := types.TypeString(st.Field(i).Type(), nil)
+		ft := tstr(st.Field(i).Type(), nil)
 		if strings.HasPrefix(ft, "sync.") {
 			continue
 		}
@@ -1225,7 +1225,7 @@ func ruleHybridPartOrder(r *Run, rule string) {
 func multiReaderOrder(w *World, fn *ssa.Function, call ssa.CallInstruction) []string {
 	var appends []*ssa.Call
 	allInstrs(fn, func(in ssa.Instruction) {
-		if c, ok := isBuiltinCall(in, "append"); ok && strings.Contains(types.TypeString(c.Type(), nil), "io.Reader") {
+		if c, ok := isBuiltinCall(in, "append"); ok && strings.Contains(tstr(c.Type(), nil), "io.Reader") {
 			appends = append(appends, c)
 		}
 	})
@@ -1261,7 +1261,7 @@ func multiReaderOrder(w *World, fn *ssa.Function, call ssa.CallInstruction) []st
 			for _, ref := range *a.Referrers() {
 				if ia, ok := ref.(*ssa.IndexAddr); ok {
 					for _, rr := range *ia.Referrers() {
-						if st, ok := rr.(*ssa.Store); ok && strings.Contains(types.TypeString(st.Val.Type(), nil), "io.Reader") {
+						if st, ok := rr.(*ssa.Store); ok && strings.Contains(tstr(st.Val.Type(), nil), "io.Reader") {
 							out = append([]string{classify(valueNameHint(w, fn, st.Val))}, out...)
 						}
 					}
